@@ -155,7 +155,6 @@ type step struct {
 	RecordError bool `json:"record_error"`
 }
 
-
 // TemplateDir is where templates are read from natively.
 func TemplateDir() string {
 	if d := os.Getenv("VERIF_TEMPLATES"); d != "" {
